@@ -93,6 +93,7 @@ type rewriter struct {
 	runtime string // local name of "runtime" import
 	imports map[string]bool
 	extra   map[string]string
+	gosched bool
 }
 
 func (r *rewriter) errf(pos token.Pos, format string, args ...any) {
@@ -157,6 +158,7 @@ func (r *rewriter) expr(e ast.Expr) ast.Expr {
 			}
 			if sel, ok := x.Fun.(*ast.SelectorExpr); ok && r.runtime != "" {
 				if id, ok := sel.X.(*ast.Ident); ok && id.Name == r.runtime && sel.Sel.Name == "Gosched" && len(x.Args) == 0 {
+					r.gosched = true
 					return call(r.vs("Yield"))
 				}
 			}
@@ -582,6 +584,13 @@ func main() {
 			}
 			r.extra = p.ImportMap
 			r.file(f)
+			if r.gosched {
+				// keep the "runtime" import used when Gosched was its only use
+				f.Decls = append(f.Decls, &ast.GenDecl{Tok: token.VAR, Specs: []ast.Spec{&ast.ValueSpec{
+					Names:  []*ast.Ident{ast.NewIdent("_")},
+					Values: []ast.Expr{&ast.SelectorExpr{X: ast.NewIdent(r.runtime), Sel: ast.NewIdent("Gosched")}},
+				}}})
+			}
 			if r.used {
 				addImport(f, "__vsched", sp.Module+shimRoot+"vsched")
 			}
